@@ -266,7 +266,7 @@ func vf19Finish(e *vf19Ev) {
 
 func (e *vf19Ev) encDef() string {
 	return fmt.Sprintf("ev %d hash=%d sz=%d time=%d tot=%d pow=%d a=%s b=%s", e.id, vf19Hash48(e.hash), e.sz,
-		e.ev.Timestamp.Unix()*1e9, e.ev.TotalVotingPower, e.ev.ValidatorPower, e.a.enc(), e.b.enc())
+		e.ev.Timestamp.UnixNano(), e.ev.TotalVotingPower, e.ev.ValidatorPower, e.a.enc(), e.b.enc())
 }
 
 // real: ground truth "two differently-targeted votes for the same height, round and type, both
@@ -477,7 +477,8 @@ func vf19Mutate(c *vf19Chn, base *vf19Ev, m string, r *vfRand) *vf19Ev {
 	case "total-wrong":
 		ev.TotalVotingPower += int64(r.Pick(1, -1, 5))
 	case "time-wrong":
-		ev.Timestamp = ev.Timestamp.Add(time.Duration(r.Pick(1, -1, 10, -10)) * time.Second)
+		// whole seconds and sub-second shifts (the evidence hash covers the full timestamp)
+		ev.Timestamp = ev.Timestamp.Add([]time.Duration{time.Second, -time.Second, 10 * time.Second, -10 * time.Second, 1, -1, time.Millisecond, 999999999}[r.Intn(8)])
 	case "not-member-at-height":
 		// signed correctly by a key that is not in the set of that height (key 3 joins late, key 4 never)
 		k := 3 + r.Intn(2)
@@ -683,7 +684,7 @@ func (x *vf19Run) accepted(e *vf19Ev, path string, wasPending bool) {
 		return
 	}
 	bt, okT := x.c.times[e.ev.Height()]
-	timeOK := okT && bt == e.ev.Timestamp.Unix()
+	timeOK := okT && bt*1e9 == e.ev.Timestamp.UnixNano()
 	if !timeOK {
 		if e.viaCon && wasPending {
 			// entered through AddEvidenceFromConsensus, which by contract is not verified; the time
